@@ -1275,6 +1275,7 @@ func TestCheck(t *testing.T) {
 	r.Sample(map[string]any{"method": "AddChain", "case": "honest", "served": clip(vs[1].honest(c.w, kP256).String()), "outcome": "accepted: SCT verifies for [leaf, ca, root] as x509_entry, LogID = SHA-256(SPKI)"})
 	r.Sample(map[string]any{"method": "GetSTH", "case": "sth:empty-tree sig:foreign-key-same-kind", "outcome": "RspError(200) carrying the body"})
 	c.entryDecoders()
+	c.temporalRoots(t)
 	r.Finish()
 }
 
